@@ -190,8 +190,12 @@ class ParamResolver:
             exponent = self.value_of(value.args[1], recursive)
             # Casts because numpy can handle expressions (by delegating to __pow__), but does
             # not have signature that will support this.
-            if isinstance(base, numbers.Number):
+            if isinstance(base, numbers.Number) and isinstance(exponent, numbers.Number):
+                if isinstance(base, numbers.Real) and base < 0 and exponent != int(exponent.real):
+                    # A fractional power of a negative number is complex (float_power gives nan).
+                    base = complex(base)
                 return np.float_power(cast(complex, base), cast(complex, exponent))
+            # At least one side is still symbolic: numpy delegates to __pow__ / __rpow__.
             return np.power(cast(complex, base), cast(complex, exponent))
 
         # Input is either a sympy formula or the dictionary maps to a
